@@ -244,11 +244,11 @@ class ShareIndexModel:
         if users is not None:
             cfg['users'] = list(users)
 
-    def remove(self, directory: str, handle_kept: bool = False):
+    def remove(self, directory: str, handle_kept: bool = False, alias: Optional[str] = None):
         directory = self.norm(directory)
         before = {f: self.owner_of(f) for f in self.known | self.optional}
         del self.shared[directory]
-        self.removed[directory] = {'gc': False, 'kept': bool(handle_kept)}
+        self.removed[directory] = {'gc': False, 'kept': bool(handle_kept), 'alias': alias}
         for f, old in before.items():
             new = self.owner_of(f)
             if new is None:
@@ -263,8 +263,13 @@ class ShareIndexModel:
         for rec in self.removed.values():
             rec['gc'] = True
 
-    def removal_of(self, path: str) -> Optional[dict]:
-        """Record of the innermost removed (and not re-added) directory containing ``path``."""
+    def removal_of(self, path: str, alias: Optional[str] = None) -> Optional[dict]:
+        """Record of the removed (and not re-added) directory ``path`` is reported under
+        (by alias, when known), else of the innermost removed directory containing it."""
+        if alias is not None:
+            for directory, rec in self.removed.items():
+                if rec.get('alias') == alias and _inside(directory, path):
+                    return rec
         best = None
         for directory in self.removed:
             if _inside(directory, path) and (best is None or len(directory) > len(best)):
